@@ -19,7 +19,9 @@ import VectorModel.Lemmas.Real
 import VectorModel.Refine.Planar
 import VectorModel.Refine.SpatialZ
 import VectorModel.Refine.SpatialAcc
+import VectorModel.Refine.SpatialBin
 import VectorModel.Gen.Real.lorentz_t
+import VectorModel.Gen.Real.lorentz_tau
 import VectorModel.Gen.Real.lorentz_boostX_beta
 import VectorModel.Gen.Real.lorentz_boostY_beta
 import VectorModel.Gen.Real.lorentz_boostZ_beta
@@ -808,5 +810,424 @@ theorem refine_lorentz_boost_p4_tau_stored (k0 : Az) (k1 : Lon) (k3 : Az) (k4 : 
 
 example : 0 < tOf .xy .z .t 0 0 0 1 ^ 2 - mag2Of .xy .z 0 0 0 ∧ 0 < tOf .xy .z .t 0 0 0 1 := by
   norm_num [tOf, mag2Of, xOf, yOf, zOf]
+
+/-! ### dot: the Minkowski product of the denotations, metric (−,−,−,+) (C01 + C02, 144 keys) -/
+
+/-- all 144 closures are `t₁·t₂ − p₁·p₂` with the accessors of the respective keys -/
+theorem lorentz_dot_eval_eq (k0 : Az) (k1 : Lon) (k2 : Tmp) (k3 : Az) (k4 : Lon) (k5 : Tmp) (a0 a1 a2 a3 a4 a5 a6 a7 : ℝ) :
+    lorentz_dot.eval k0 k1 k2 k3 k4 k5 a0 a1 a2 a3 a4 a5 a6 a7
+      = lorentz_t.eval k0 k1 k2 a0 a1 a2 a3 * lorentz_t.eval k3 k4 k5 a4 a5 a6 a7
+        - spatial_dot.eval k0 k1 k3 k4 a0 a1 a2 a4 a5 a6 := by
+  cases k0 <;> cases k1 <;> cases k2 <;> cases k3 <;> cases k4 <;> cases k5 <;> rfl
+
+/-- `_partial`: one spatial key (`rhophi_eta` · `rhophi_z`) needs `DotOK` (`0 < ρ₂`), inherited from
+`refine_spatial_dot_partial` (see `refine_spatial_dot_defect`). -/
+theorem refine_lorentz_dot_partial (k0 : Az) (k1 : Lon) (k2 : Tmp) (k3 : Az) (k4 : Lon) (k5 : Tmp)
+    (a0 a1 a2 a3 a4 a5 a6 a7 : ℝ) (h1 : TanOK k1 a2) (h2 : TanOK k4 a6) (hs1 : SinOK k1 a2) (hs2 : SinOK k4 a6)
+    (hd1 : CanonTmp k2 a3) (hd2 : CanonTmp k5 a7) (h3 : DotOK k0 k1 k3 k4 a4) :
+    lorentz_dot.eval k0 k1 k2 k3 k4 k5 a0 a1 a2 a3 a4 a5 a6 a7
+      = mdot (cart4 k0 k1 k2 a0 a1 a2 a3) (cart4 k3 k4 k5 a4 a5 a6 a7) := by
+  rw [lorentz_dot_eval_eq, lorentz_t_eq_tOf k0 k1 k2 a0 a1 a2 a3 hs1 hd1, lorentz_t_eq_tOf k3 k4 k5 a4 a5 a6 a7 hs2 hd2,
+    refine_spatial_dot_partial k0 k1 k3 k4 a0 a1 a2 a4 a5 a6 h1 h2 h3]
+  simp only [mdot, dot3, cart3, cart4]
+  ring
+
+/-- the unconditional statement fails at a representable operand with `ρ₂ = 0` (inherited spatial defect) -/
+theorem refine_lorentz_dot_defect :
+    lorentz_dot.eval .rhophi .eta .t .rhophi .z .t 1 0 1 0 0 0 1 0
+      ≠ mdot (cart4 .rhophi .eta .t 1 0 1 0) (cart4 .rhophi .z .t 0 0 1 0) := by
+  rw [lorentz_dot_eval_eq]
+  have h := refine_spatial_dot_defect
+  simp only [dot3, cart3] at h
+  simp only [d_lorentz_t, mdot, cart4, tOf]
+  intro e
+  apply h
+  linarith
+
+example : DotOK .rhophi .eta .rhophi .z 2 := by norm_num [DotOK]
+
+/-! ### scale -/
+
+/-- interpretation through a result type declared in the operand's own system -/
+theorem interp3_same (k0 : Az) (k1 : Lon) (v : ℝ × ℝ × ℝ) :
+    interp3 (Ret.vec [RP.az k0, RP.lon k1]) v = some (cart3 k0 k1 v.1 v.2.1 v.2.2) := rfl
+theorem interp4_same (k0 : Az) (k1 : Lon) (k2 : Tmp) (v : ℝ × ℝ × ℝ × ℝ) :
+    interp4 (Ret.vec [RP.az k0, RP.lon k1, RP.tmp k2]) v = some (cart4 k0 k1 k2 v.1 v.2.1 v.2.2.1 v.2.2.2) := rfl
+
+/-- a 4-vector whose stored spatial part denotes `f·p` and whose stored temporal coordinate is `f·d` denotes `f·(p, t)`;
+for τ storage this needs `0 ≤ f` (a τ-stored vector always has `t ≥ 0`) -/
+theorem cart4_of_scaled (k0 : Az) (k1 : Lon) (k2 : Tmp) (f a b c d a' b' c' : ℝ)
+    (hC : cart3 k0 k1 a' b' c' = smul3 f (cart3 k0 k1 a b c)) (hf : k2 = .tau → 0 ≤ f) :
+    cart4 k0 k1 k2 a' b' c' (d * f) = smul4 f (cart4 k0 k1 k2 a b c d) := by
+  simp only [cart3, smul3, Prod.mk.injEq] at hC
+  obtain ⟨hx, hy, hz⟩ := hC
+  cases k2
+  · simp only [cart4, smul4, tOf_t, hx, hy, hz, mul_comm d f]
+  · have h0 := hf rfl
+    have ht : tOf k0 k1 .tau a' b' c' (d * f) = f * tOf k0 k1 .tau a b c d := by
+      have e : ∀ (k0 : Az) (k1 : Lon) (a b c d : ℝ),
+          tOf k0 k1 .tau a b c d = sqrt (d ^ 2 + (xOf k0 a b ^ 2 + yOf k0 a b ^ 2 + zOf k0 k1 a b c ^ 2)) := by
+        intro k0 k1 a b c d; cases k0 <;> cases k1 <;> rfl
+      rw [e, e, hx, hy, hz, ← sqrt_sq h0, ← sqrt_mul (sq_nonneg f), sqrt_sq h0]
+      congr 1; ring
+    simp only [cart4, smul4, hx, hy, hz, ht]
+
+theorem lorentz_scale_eval_eq (k0 : Az) (k1 : Lon) (k2 : Tmp) (f a b c d : ℝ) :
+    lorentz_scale.eval k0 k1 k2 f a b c d
+      = ((spatial_scale.eval k0 k1 f a b c).1, (spatial_scale.eval k0 k1 f a b c).2.1,
+          (spatial_scale.eval k0 k1 f a b c).2.2, d * f) := by
+  cases k0 <;> cases k1 <;> cases k2 <;> rfl
+
+/-- `scale` multiplies the denoted 4-vector by the factor; for τ storage only for `0 ≤ f` (see
+`refine_lorentz_scale_defect`). `ThetaRange`: the stored θ lies in `[0, π]` (implied by `CanonLon`). -/
+theorem refine_lorentz_scale_partial (k0 : Az) (k1 : Lon) (k2 : Tmp) (f a b c d : ℝ) (h : ThetaRange k1 c)
+    (hf : k2 = .tau → 0 ≤ f) :
+    interp4 (lorentz_scale.ret k0 k1 k2) (lorentz_scale.eval k0 k1 k2 f a b c d)
+      = some (smul4 f (cart4 k0 k1 k2 a b c d)) := by
+  have hS := refine_spatial_scale k0 k1 f a b c h
+  have hr : spatial_scale.ret k0 k1 = Ret.vec [RP.az k0, RP.lon k1] := by cases k0 <;> cases k1 <;> rfl
+  have hr4 : lorentz_scale.ret k0 k1 k2 = Ret.vec [RP.az k0, RP.lon k1, RP.tmp k2] := by
+    cases k0 <;> cases k1 <;> cases k2 <;> rfl
+  rw [hr, interp3_same, Option.some.injEq] at hS
+  rw [hr4, interp4_same, lorentz_scale_eval_eq]
+  exact congrArg some (cart4_of_scaled k0 k1 k2 f a b c d _ _ _ hS hf)
+
+/-- for τ storage and a negative factor the result does NOT denote `f·(p, t)`: the code stores `τ·f < 0`, whose time
+component is read back as `√max(−τ²f² + f²|p|², 0)`; e.g. `−1 · (0,0,0; τ=1)` should have `t = −1` but
+`lorentz_t` of the result is `0` (and the denotation `√(τ'² + |p'|²)` is `+1`). -/
+theorem refine_lorentz_scale_defect :
+    interp4 (lorentz_scale.ret .xy .z .tau) (lorentz_scale.eval .xy .z .tau (-1) 0 0 0 1)
+        ≠ some (smul4 (-1) (cart4 .xy .z .tau 0 0 0 1))
+      ∧ lorentz_t.eval .xy .z .tau (lorentz_scale.eval .xy .z .tau (-1) 0 0 0 1).1
+          (lorentz_scale.eval .xy .z .tau (-1) 0 0 0 1).2.1 (lorentz_scale.eval .xy .z .tau (-1) 0 0 0 1).2.2.1
+          (lorentz_scale.eval .xy .z .tau (-1) 0 0 0 1).2.2.2 = 0 := by
+  constructor
+  · simp only [d_lorentz_scale, d_spatial_scale, interp4, retAz, retLon, retTmp, cart4, smul4, tOf, mag2Of, xOf, yOf, zOf]
+    norm_num
+  · simp only [d_lorentz_scale, d_spatial_scale, d_lorentz_t, d_lorentz_t2, d_lorentz_tau2, d_spatial_mag2, P.copysign]
+    norm_num
+
+example : ThetaRange .theta 1 := ⟨by norm_num, by linarith [two_le_pi]⟩
+
+/-! ### add / subtract (144 keys each)
+
+The result system is the one declared by `spatial_add` / `spatial_subtract`; the temporal coordinate of the result is
+`t₁ ± t₂`, except for the 36 τ,τ keys, which return `τ' = lorentz_tau(result, t₁ ± t₂)`. -/
+
+/-- declared azimuthal / longitudinal system of a result type -/
+def azOfRet (r : Ret) : Az := (retAz r).getD .xy
+def lonOfRet (r : Ret) : Lon := (retLon r).getD .z
+
+/-- the code's `tau` accessor for `t` storage: `copysign(√|s|, s)`, `s = t² − |p|²` -/
+theorem lorentz_tau_t_eq (k0 : Az) (k1 : Lon) (a b c t : ℝ) (hs : SinOK k1 c) :
+    lorentz_tau.eval k0 k1 .t a b c t
+      = P.copysign (sqrt |t ^ 2 - mag2Of k0 k1 a b c|) (t ^ 2 - mag2Of k0 k1 a b c) := by
+  have hm := refine_spatial_mag2 k0 k1 a b c hs
+  cases k0 <;> cases k1 <;> simp only [spatial_mag2.eval] at hm <;>
+    simp only [d_lorentz_tau, d_lorentz_tau2, hm]
+
+/-- a result stored as (spatial part denoting `P`, `τ' = tau(…, T)`) denotes `(P, T)` when `(P, T)` is causal and
+future-directed ("exact result representable in τ storage") -/
+theorem cart4_tau_of_causal (az : Az) (lon : Lon) (a b c T : ℝ) (q : ℝ × ℝ × ℝ) (hA : cart3 az lon a b c = q)
+    (hs : SinOK lon c) (hT : 0 ≤ T) (hc : q.1 ^ 2 + q.2.1 ^ 2 + q.2.2 ^ 2 ≤ T ^ 2) :
+    cart4 az lon .tau a b c (lorentz_tau.eval az lon .t a b c T) = (q.1, q.2.1, q.2.2, T) := by
+  subst hA
+  have hm : mag2Of az lon a b c = xOf az a b ^ 2 + yOf az a b ^ 2 + zOf az lon a b c ^ 2 := rfl
+  have hs0 : 0 ≤ T ^ 2 - mag2Of az lon a b c := by rw [hm]; simp only [cart3] at hc; linarith
+  have hτ : lorentz_tau.eval az lon .t a b c T = sqrt (T ^ 2 - mag2Of az lon a b c) := by
+    rw [lorentz_tau_t_eq az lon a b c T hs]
+    unfold P.copysign
+    rw [if_pos hs0, abs_of_nonneg hs0, abs_of_nonneg (sqrt_nonneg _)]
+  have ht : tOf az lon .tau a b c (sqrt (T ^ 2 - mag2Of az lon a b c)) = T := by
+    have e : tOf az lon .tau a b c (sqrt (T ^ 2 - mag2Of az lon a b c))
+        = sqrt (sqrt (T ^ 2 - mag2Of az lon a b c) ^ 2 + mag2Of az lon a b c) := by
+      cases az <;> cases lon <;> rfl
+    rw [e, sq_sqrt hs0, sub_add_cancel, sqrt_sq hT]
+  rw [hτ]
+  simp only [cart4, cart3, ht]
+
+/-- `θ` produced from an off-axis Cartesian / cylindrical point has `sin θ ≠ 0` -/
+theorem sin_theta_xy_z_ne (x y z : ℝ) (h : 0 < x ^ 2 + y ^ 2) : sin (spatial_theta.xy_z x y z) ≠ 0 := by
+  have hr : 0 < rhoOf .xy x y := sqrt_pos.mpr h
+  have := refine_spatial_theta_mem .xy .z x y z hr trivial
+  exact (sin_pos_of_pos_of_lt_pi this.1 this.2).ne'
+theorem sin_theta_rhophi_z_ne (r p z : ℝ) (h : 0 < r) : sin (spatial_theta.rhophi_z r p z) ≠ 0 := by
+  have := refine_spatial_theta_mem .rhophi .z r p z h trivial
+  exact (sin_pos_of_pos_of_lt_pi this.1 this.2).ne'
+
+/-- polar sum / difference: the computed `ρ` is positive when the exact result is off the origin -/
+theorem planar_add_rho_pos (r1 p1 r2 p2 : ℝ)
+    (h : 0 < (xOf .rhophi r1 p1 + xOf .rhophi r2 p2) ^ 2 + (yOf .rhophi r1 p1 + yOf .rhophi r2 p2) ^ 2) :
+    0 < (planar_add.rhophi_rhophi r1 p1 r2 p2).1 := by
+  have e := refine_planar_add .rhophi .rhophi r1 p1 r2 p2
+  simp only [planar_add.eval, planar_add.ret, interp2, retAz, Option.map, cart2, add2, Option.some.injEq,
+    Prod.mk.injEq] at e
+  have h0 : 0 ≤ (planar_add.rhophi_rhophi r1 p1 r2 p2).1 := by
+    simp only [planar_add.rhophi_rhophi]; exact sqrt_nonneg _
+  rcases eq_or_lt_of_le h0 with h1 | h1
+  · exfalso
+    simp only [xOf, yOf] at e h
+    rw [← h1, zero_mul, zero_mul] at e
+    rw [← e.1, ← e.2] at h
+    norm_num at h
+  · exact h1
+theorem planar_subtract_rho_pos (r1 p1 r2 p2 : ℝ)
+    (h : 0 < (xOf .rhophi r1 p1 - xOf .rhophi r2 p2) ^ 2 + (yOf .rhophi r1 p1 - yOf .rhophi r2 p2) ^ 2) :
+    0 < (planar_subtract.rhophi_rhophi r1 p1 r2 p2).1 := by
+  have e := refine_planar_subtract .rhophi .rhophi r1 p1 r2 p2
+  simp only [planar_subtract.eval, planar_subtract.ret, interp2, retAz, Option.map, cart2, sub2, Option.some.injEq,
+    Prod.mk.injEq] at e
+  have h0 : 0 ≤ (planar_subtract.rhophi_rhophi r1 p1 r2 p2).1 := by
+    simp only [planar_subtract.rhophi_rhophi]; exact sqrt_nonneg _
+  rcases eq_or_lt_of_le h0 with h1 | h1
+  · exfalso
+    simp only [xOf, yOf] at e h
+    rw [← h1, zero_mul, zero_mul] at e
+    rw [← e.1, ← e.2] at h
+    norm_num at h
+  · exact h1
+
+/-- the longitudinal coordinate of a representable `spatial_add` result satisfies `SinOK` -/
+theorem spatial_add_sinOK (k0 : Az) (k1 : Lon) (k3 : Az) (k4 : Lon) (a0 a1 a2 a4 a5 a6 : ℝ)
+    (hrep : Representable3 (spatial_add.ret k0 k1 k3 k4) (add3 (cart3 k0 k1 a0 a1 a2) (cart3 k3 k4 a4 a5 a6))) :
+    SinOK (lonOfRet (spatial_add.ret k0 k1 k3 k4)) (spatial_add.eval k0 k1 k3 k4 a0 a1 a2 a4 a5 a6).2.2 := by
+  cases k0 <;> cases k1 <;> cases k3 <;> cases k4 <;> try exact trivial
+  all_goals
+    simp only [Representable3, spatial_add.ret, retLon, add3, cart3, Option.some.injEq, reduceCtorEq, false_or] at hrep
+  · exact sin_theta_xy_z_ne _ _ _ hrep
+  · exact sin_theta_rhophi_z_ne _ _ _ (planar_add_rho_pos _ _ _ _ hrep)
+
+theorem spatial_subtract_sinOK (k0 : Az) (k1 : Lon) (k3 : Az) (k4 : Lon) (a0 a1 a2 a4 a5 a6 : ℝ)
+    (hrep : Representable3 (spatial_subtract.ret k0 k1 k3 k4) (sub3 (cart3 k0 k1 a0 a1 a2) (cart3 k3 k4 a4 a5 a6))) :
+    SinOK (lonOfRet (spatial_subtract.ret k0 k1 k3 k4)) (spatial_subtract.eval k0 k1 k3 k4 a0 a1 a2 a4 a5 a6).2.2 := by
+  cases k0 <;> cases k1 <;> cases k3 <;> cases k4 <;> try exact trivial
+  all_goals
+    simp only [Representable3, spatial_subtract.ret, retLon, sub3, cart3, Option.some.injEq, reduceCtorEq, false_or] at hrep
+  · exact sin_theta_xy_z_ne _ _ _ hrep
+  · exact sin_theta_rhophi_z_ne _ _ _ (planar_subtract_rho_pos _ _ _ _ hrep)
+
+theorem tOf_tau_eq (k0 : Az) (k1 : Lon) (a b c d : ℝ) :
+    tOf k0 k1 .tau a b c d = sqrt (d ^ 2 + (xOf k0 a b ^ 2 + yOf k0 a b ^ 2 + zOf k0 k1 a b c ^ 2)) := by
+  cases k0 <;> cases k1 <;> rfl
+
+/-- the sum of two future-directed causal vectors is future-directed causal -/
+theorem L.causal_add (x1 y1 z1 s1 x2 y2 z2 s2 : ℝ) (h1 : 0 ≤ s1) (h2 : 0 ≤ s2) :
+    0 ≤ sqrt (s1 + (x1 ^ 2 + y1 ^ 2 + z1 ^ 2)) + sqrt (s2 + (x2 ^ 2 + y2 ^ 2 + z2 ^ 2)) ∧
+    (x1 + x2) ^ 2 + (y1 + y2) ^ 2 + (z1 + z2) ^ 2
+      ≤ (sqrt (s1 + (x1 ^ 2 + y1 ^ 2 + z1 ^ 2)) + sqrt (s2 + (x2 ^ 2 + y2 ^ 2 + z2 ^ 2))) ^ 2 := by
+  have e1 : sqrt (s1 + (x1 ^ 2 + y1 ^ 2 + z1 ^ 2)) ^ 2 = s1 + (x1 ^ 2 + y1 ^ 2 + z1 ^ 2) := sq_sqrt (by positivity)
+  have e2 : sqrt (s2 + (x2 ^ 2 + y2 ^ 2 + z2 ^ 2)) ^ 2 = s2 + (x2 ^ 2 + y2 ^ 2 + z2 ^ 2) := sq_sqrt (by positivity)
+  have n1 := sqrt_nonneg (s1 + (x1 ^ 2 + y1 ^ 2 + z1 ^ 2))
+  have n2 := sqrt_nonneg (s2 + (x2 ^ 2 + y2 ^ 2 + z2 ^ 2))
+  generalize sqrt (s1 + (x1 ^ 2 + y1 ^ 2 + z1 ^ 2)) = T1 at e1 n1 ⊢
+  generalize sqrt (s2 + (x2 ^ 2 + y2 ^ 2 + z2 ^ 2)) = T2 at e2 n2 ⊢
+  refine ⟨by positivity, ?_⟩
+  have hcs : (x1 * x2 + y1 * y2 + z1 * z2) ^ 2 ≤ (T1 * T2) ^ 2 := by
+    have c1 : (x1 * x2 + y1 * y2 + z1 * z2) ^ 2 ≤ (x1 ^ 2 + y1 ^ 2 + z1 ^ 2) * (x2 ^ 2 + y2 ^ 2 + z2 ^ 2) := by
+      nlinarith [sq_nonneg (x1 * y2 - y1 * x2), sq_nonneg (x1 * z2 - z1 * x2), sq_nonneg (y1 * z2 - z1 * y2)]
+    have c2 : (x1 ^ 2 + y1 ^ 2 + z1 ^ 2) * (x2 ^ 2 + y2 ^ 2 + z2 ^ 2) ≤ T1 ^ 2 * T2 ^ 2 := by
+      apply mul_le_mul <;> first | positivity | linarith
+    rw [mul_pow]; linarith
+  have := abs_le_of_sq_le_sq hcs (by positivity)
+  have := le_abs_self (x1 * x2 + y1 * y2 + z1 * z2)
+  nlinarith
+
+theorem lorentz_add_eval_eq (k0 : Az) (k1 : Lon) (k2 : Tmp) (k3 : Az) (k4 : Lon) (k5 : Tmp) (a0 a1 a2 a3 a4 a5 a6 a7 : ℝ) :
+    lorentz_add.eval k0 k1 k2 k3 k4 k5 a0 a1 a2 a3 a4 a5 a6 a7
+      = ((spatial_add.eval k0 k1 k3 k4 a0 a1 a2 a4 a5 a6).1, (spatial_add.eval k0 k1 k3 k4 a0 a1 a2 a4 a5 a6).2.1,
+          (spatial_add.eval k0 k1 k3 k4 a0 a1 a2 a4 a5 a6).2.2,
+          match k2, k5 with
+          | .tau, .tau => lorentz_tau.eval (azOfRet (spatial_add.ret k0 k1 k3 k4)) (lonOfRet (spatial_add.ret k0 k1 k3 k4)) .t
+              (spatial_add.eval k0 k1 k3 k4 a0 a1 a2 a4 a5 a6).1 (spatial_add.eval k0 k1 k3 k4 a0 a1 a2 a4 a5 a6).2.1
+              (spatial_add.eval k0 k1 k3 k4 a0 a1 a2 a4 a5 a6).2.2
+              (lorentz_t.eval k0 k1 k2 a0 a1 a2 a3 + lorentz_t.eval k3 k4 k5 a4 a5 a6 a7)
+          | _, _ => lorentz_t.eval k0 k1 k2 a0 a1 a2 a3 + lorentz_t.eval k3 k4 k5 a4 a5 a6 a7) := by
+  cases k0 <;> cases k1 <;> cases k2 <;> cases k3 <;> cases k4 <;> cases k5 <;> rfl
+
+theorem lorentz_add_ret_eq (k0 : Az) (k1 : Lon) (k2 : Tmp) (k3 : Az) (k4 : Lon) (k5 : Tmp) :
+    lorentz_add.ret k0 k1 k2 k3 k4 k5
+      = Ret.vec [RP.az (azOfRet (spatial_add.ret k0 k1 k3 k4)), RP.lon (lonOfRet (spatial_add.ret k0 k1 k3 k4)),
+          RP.tmp (match k2, k5 with | .tau, .tau => .tau | _, _ => .t)] := by
+  cases k0 <;> cases k1 <;> cases k2 <;> cases k3 <;> cases k4 <;> cases k5 <;> rfl
+
+theorem spatial_add_ret_eq (k0 : Az) (k1 : Lon) (k3 : Az) (k4 : Lon) :
+    spatial_add.ret k0 k1 k3 k4
+      = Ret.vec [RP.az (azOfRet (spatial_add.ret k0 k1 k3 k4)), RP.lon (lonOfRet (spatial_add.ret k0 k1 k3 k4))] := by
+  cases k0 <;> cases k1 <;> cases k3 <;> cases k4 <;> rfl
+
+/-- `add` denotes the sum of the denoted 4-vectors, for all 144 keys. `Representable3`: results declared with a θ/η
+longitudinal coordinate must be off the z axis. (For the τ,τ keys the exact sum is automatically representable in
+τ storage: the sum of two future-directed causal vectors is one.) -/
+theorem refine_lorentz_add (k0 : Az) (k1 : Lon) (k2 : Tmp) (k3 : Az) (k4 : Lon) (k5 : Tmp) (a0 a1 a2 a3 a4 a5 a6 a7 : ℝ)
+    (h1 : TanOK k1 a2) (h2 : TanOK k4 a6) (hs1 : SinOK k1 a2) (hs2 : SinOK k4 a6)
+    (hd1 : CanonTmp k2 a3) (hd2 : CanonTmp k5 a7)
+    (hrep : Representable3 (spatial_add.ret k0 k1 k3 k4) (add3 (cart3 k0 k1 a0 a1 a2) (cart3 k3 k4 a4 a5 a6))) :
+    interp4 (lorentz_add.ret k0 k1 k2 k3 k4 k5) (lorentz_add.eval k0 k1 k2 k3 k4 k5 a0 a1 a2 a3 a4 a5 a6 a7)
+      = some (add4 (cart4 k0 k1 k2 a0 a1 a2 a3) (cart4 k3 k4 k5 a4 a5 a6 a7)) := by
+  have hS := refine_spatial_add k0 k1 k3 k4 a0 a1 a2 a4 a5 a6 h1 h2 hrep
+  have hso := spatial_add_sinOK k0 k1 k3 k4 a0 a1 a2 a4 a5 a6 hrep
+  rw [spatial_add_ret_eq, interp3_same, Option.some.injEq] at hS
+  rw [lorentz_add_eval_eq, lorentz_add_ret_eq, interp4_same,
+    lorentz_t_eq_tOf k0 k1 k2 a0 a1 a2 a3 hs1 hd1, lorentz_t_eq_tOf k3 k4 k5 a4 a5 a6 a7 hs2 hd2]
+  apply congrArg some
+  generalize azOfRet (spatial_add.ret k0 k1 k3 k4) = az at hS hso ⊢
+  generalize lonOfRet (spatial_add.ret k0 k1 k3 k4) = lon at hS hso ⊢
+  generalize spatial_add.eval k0 k1 k3 k4 a0 a1 a2 a4 a5 a6 = A at hS hso ⊢
+  have hxyz := hS
+  simp only [cart3, add3, Prod.mk.injEq] at hxyz
+  obtain ⟨hx, hy, hz⟩ := hxyz
+  cases k2 <;> cases k5
+  case tau.tau =>
+    have hd1' : (0 : ℝ) ≤ a3 := hd1
+    have hd2' : (0 : ℝ) ≤ a7 := hd2
+    have hc := L.causal_add (xOf k0 a0 a1) (yOf k0 a0 a1) (zOf k0 k1 a0 a1 a2) (a3 ^ 2)
+      (xOf k3 a4 a5) (yOf k3 a4 a5) (zOf k3 k4 a4 a5 a6) (a7 ^ 2) (sq_nonneg _) (sq_nonneg _)
+    rw [← tOf_tau_eq, ← tOf_tau_eq] at hc
+    simp only []
+    rw [cart4_tau_of_causal az lon _ _ _ _ _ hS hso hc.1 (by simpa only [add3, cart3] using hc.2)]
+    simp only [add4, add3, cart4, cart3]
+  all_goals simp only [cart4, add4, tOf_t, hx, hy, hz]
+
+example : Representable3 (spatial_add.ret .xy .eta .xy .eta) (add3 (cart3 .xy .eta 1 0 1) (cart3 .xy .eta 1 0 1)) :=
+  Or.inr (by norm_num [add3, cart3, xOf, yOf])
+
+theorem lorentz_subtract_eval_eq (k0 : Az) (k1 : Lon) (k2 : Tmp) (k3 : Az) (k4 : Lon) (k5 : Tmp)
+    (a0 a1 a2 a3 a4 a5 a6 a7 : ℝ) :
+    lorentz_subtract.eval k0 k1 k2 k3 k4 k5 a0 a1 a2 a3 a4 a5 a6 a7
+      = ((spatial_subtract.eval k0 k1 k3 k4 a0 a1 a2 a4 a5 a6).1, (spatial_subtract.eval k0 k1 k3 k4 a0 a1 a2 a4 a5 a6).2.1,
+          (spatial_subtract.eval k0 k1 k3 k4 a0 a1 a2 a4 a5 a6).2.2,
+          match k2, k5 with
+          | .tau, .tau => lorentz_tau.eval (azOfRet (spatial_subtract.ret k0 k1 k3 k4))
+              (lonOfRet (spatial_subtract.ret k0 k1 k3 k4)) .t
+              (spatial_subtract.eval k0 k1 k3 k4 a0 a1 a2 a4 a5 a6).1 (spatial_subtract.eval k0 k1 k3 k4 a0 a1 a2 a4 a5 a6).2.1
+              (spatial_subtract.eval k0 k1 k3 k4 a0 a1 a2 a4 a5 a6).2.2
+              (lorentz_t.eval k0 k1 k2 a0 a1 a2 a3 - lorentz_t.eval k3 k4 k5 a4 a5 a6 a7)
+          | _, _ => lorentz_t.eval k0 k1 k2 a0 a1 a2 a3 - lorentz_t.eval k3 k4 k5 a4 a5 a6 a7) := by
+  cases k0 <;> cases k1 <;> cases k2 <;> cases k3 <;> cases k4 <;> cases k5 <;> rfl
+
+theorem lorentz_subtract_ret_eq (k0 : Az) (k1 : Lon) (k2 : Tmp) (k3 : Az) (k4 : Lon) (k5 : Tmp) :
+    lorentz_subtract.ret k0 k1 k2 k3 k4 k5
+      = Ret.vec [RP.az (azOfRet (spatial_subtract.ret k0 k1 k3 k4)), RP.lon (lonOfRet (spatial_subtract.ret k0 k1 k3 k4)),
+          RP.tmp (match k2, k5 with | .tau, .tau => .tau | _, _ => .t)] := by
+  cases k0 <;> cases k1 <;> cases k2 <;> cases k3 <;> cases k4 <;> cases k5 <;> rfl
+
+theorem spatial_subtract_ret_eq (k0 : Az) (k1 : Lon) (k3 : Az) (k4 : Lon) :
+    spatial_subtract.ret k0 k1 k3 k4
+      = Ret.vec [RP.az (azOfRet (spatial_subtract.ret k0 k1 k3 k4)), RP.lon (lonOfRet (spatial_subtract.ret k0 k1 k3 k4))] := by
+  cases k0 <;> cases k1 <;> cases k3 <;> cases k4 <;> rfl
+
+/-- `subtract` denotes the difference of the denoted 4-vectors, for all 144 keys. For the 36 τ,τ keys the exact
+difference must be representable in τ storage (`hc`: future-directed and causal) — a difference of two time-like
+vectors need not be. -/
+theorem refine_lorentz_subtract (k0 : Az) (k1 : Lon) (k2 : Tmp) (k3 : Az) (k4 : Lon) (k5 : Tmp)
+    (a0 a1 a2 a3 a4 a5 a6 a7 : ℝ)
+    (h1 : TanOK k1 a2) (h2 : TanOK k4 a6) (hs1 : SinOK k1 a2) (hs2 : SinOK k4 a6)
+    (hd1 : CanonTmp k2 a3) (hd2 : CanonTmp k5 a7)
+    (hrep : Representable3 (spatial_subtract.ret k0 k1 k3 k4) (sub3 (cart3 k0 k1 a0 a1 a2) (cart3 k3 k4 a4 a5 a6)))
+    (hc : k2 = .tau → k5 = .tau →
+      0 ≤ tOf k0 k1 k2 a0 a1 a2 a3 - tOf k3 k4 k5 a4 a5 a6 a7 ∧
+      (xOf k0 a0 a1 - xOf k3 a4 a5) ^ 2 + (yOf k0 a0 a1 - yOf k3 a4 a5) ^ 2 + (zOf k0 k1 a0 a1 a2 - zOf k3 k4 a4 a5 a6) ^ 2
+        ≤ (tOf k0 k1 k2 a0 a1 a2 a3 - tOf k3 k4 k5 a4 a5 a6 a7) ^ 2) :
+    interp4 (lorentz_subtract.ret k0 k1 k2 k3 k4 k5) (lorentz_subtract.eval k0 k1 k2 k3 k4 k5 a0 a1 a2 a3 a4 a5 a6 a7)
+      = some (sub4 (cart4 k0 k1 k2 a0 a1 a2 a3) (cart4 k3 k4 k5 a4 a5 a6 a7)) := by
+  have hS := refine_spatial_subtract k0 k1 k3 k4 a0 a1 a2 a4 a5 a6 h1 h2 hrep
+  have hso := spatial_subtract_sinOK k0 k1 k3 k4 a0 a1 a2 a4 a5 a6 hrep
+  rw [spatial_subtract_ret_eq, interp3_same, Option.some.injEq] at hS
+  rw [lorentz_subtract_eval_eq, lorentz_subtract_ret_eq, interp4_same,
+    lorentz_t_eq_tOf k0 k1 k2 a0 a1 a2 a3 hs1 hd1, lorentz_t_eq_tOf k3 k4 k5 a4 a5 a6 a7 hs2 hd2]
+  apply congrArg some
+  generalize azOfRet (spatial_subtract.ret k0 k1 k3 k4) = az at hS hso ⊢
+  generalize lonOfRet (spatial_subtract.ret k0 k1 k3 k4) = lon at hS hso ⊢
+  generalize spatial_subtract.eval k0 k1 k3 k4 a0 a1 a2 a4 a5 a6 = A at hS hso ⊢
+  have hxyz := hS
+  simp only [cart3, sub3, Prod.mk.injEq] at hxyz
+  obtain ⟨hx, hy, hz⟩ := hxyz
+  cases k2 <;> cases k5
+  case tau.tau =>
+    obtain ⟨hc1, hc2⟩ := hc rfl rfl
+    simp only []
+    rw [cart4_tau_of_causal az lon _ _ _ _ _ hS hso hc1 (by simpa only [sub3, cart3] using hc2)]
+    simp only [sub4, sub3, cart4, cart3]
+  all_goals simp only [cart4, sub4, tOf_t, hx, hy, hz]
+
+/-- without `hc` the τ,τ keys fail: `(0,0,0; τ=1) − (0,0,0; τ=2)` is stored as `τ' = −1` (denoting `t = +1`, and read back
+by `lorentz_t` as `0`), the exact difference has `t = −1` -/
+theorem refine_lorentz_subtract_defect :
+    interp4 (lorentz_subtract.ret .xy .z .tau .xy .z .tau) (lorentz_subtract.eval .xy .z .tau .xy .z .tau 0 0 0 1 0 0 0 2)
+      ≠ some (sub4 (cart4 .xy .z .tau 0 0 0 1) (cart4 .xy .z .tau 0 0 0 2)) := by
+  simp only [d_lorentz_subtract, d_spatial_subtract, d_lorentz_t, d_lorentz_t2, d_lorentz_tau, d_lorentz_tau2, d_spatial_mag2,
+    interp4, retAz, retLon, retTmp, cart4, sub4, tOf, mag2Of, xOf, yOf, zOf, P.copysign]
+  norm_num
+  have h4 : sqrt 4 = 2 := by rw [show (4 : ℝ) = 2 ^ 2 by norm_num, sqrt_sq (by norm_num)]
+  rw [h4]; norm_num
+
+example : (0 : ℝ) ≤ tOf .xy .z .tau 0 0 0 2 - tOf .xy .z .tau 0 0 0 1 := by
+  simp only [tOf, mag2Of, xOf, yOf, zOf]; norm_num
+
+/-! ### unit: `p / √|t² − |p|²|` (12 keys) -/
+
+theorem lorentz_tau2_t_eq (k0 : Az) (k1 : Lon) (a b c t : ℝ) (hs : SinOK k1 c) :
+    lorentz_tau2.eval k0 k1 .t a b c t = t ^ 2 - mag2Of k0 k1 a b c := by
+  have hm := refine_spatial_mag2 k0 k1 a b c hs
+  cases k0 <;> cases k1 <;> simp only [spatial_mag2.eval] at hm <;> simp only [d_lorentz_tau2, hm]
+
+/-- dividing the length-like stored coordinates by `n > 0` divides the denoted vector by `n` -/
+theorem cart3_div (k0 : Az) (k1 : Lon) (a b c n : ℝ) (hn : 0 < n) :
+    cart3 k0 k1 (a / n) (match k0 with | .xy => b / n | .rhophi => b) (match k1 with | .z => c / n | _ => c)
+      = smul3 (1 / n) (cart3 k0 k1 a b c) := by
+  have hr : sqrt ((a / n) ^ 2 + (b / n) ^ 2) = sqrt (a ^ 2 + b ^ 2) / n := by
+    have : (a / n) ^ 2 + (b / n) ^ 2 = (a ^ 2 + b ^ 2) / n ^ 2 := by field_simp
+    rw [this, sqrt_div (by positivity), sqrt_sq hn.le]
+  cases k0 <;> cases k1 <;> simp only [cart3, smul3, xOf, yOf, zOf, rhoOf, hr, Prod.mk.injEq] <;>
+    exact ⟨by ring, by ring, by ring⟩
+
+/-- the normalisation and the temporal coordinate the code computes -/
+noncomputable def unitNorm (k0 : Az) (k1 : Lon) (k2 : Tmp) (a b c d : ℝ) : ℝ :=
+  match k2 with | .t => sqrt |lorentz_tau2.eval k0 k1 .t a b c d| | .tau => |d|
+noncomputable def unitLast (k0 : Az) (k1 : Lon) (k2 : Tmp) (a b c d : ℝ) : ℝ :=
+  match k2 with | .t => d / unitNorm k0 k1 .t a b c d | .tau => P.copysign 1 d
+
+theorem lorentz_unit_eval_eq (k0 : Az) (k1 : Lon) (k2 : Tmp) (a b c d : ℝ) :
+    lorentz_unit.eval k0 k1 k2 a b c d
+      = (a / unitNorm k0 k1 k2 a b c d,
+         (match k0 with | .xy => b / unitNorm k0 k1 k2 a b c d | .rhophi => b),
+         (match k1 with | .z => c / unitNorm k0 k1 k2 a b c d | _ => c),
+         unitLast k0 k1 k2 a b c d) := by
+  cases k0 <;> cases k1 <;> cases k2 <;> rfl
+
+/-- `unit` divides the denoted 4-vector by `√|t² − |p|²|`, for every key, provided the vector is not light-like -/
+theorem refine_lorentz_unit (k0 : Az) (k1 : Lon) (k2 : Tmp) (a b c d : ℝ) (hs : SinOK k1 c) (hd : CanonTmp k2 d)
+    (hm : tOf k0 k1 k2 a b c d ^ 2 - mag2Of k0 k1 a b c ≠ 0) :
+    interp4 (lorentz_unit.ret k0 k1 k2) (lorentz_unit.eval k0 k1 k2 a b c d)
+      = some (smul4 (1 / sqrt |tOf k0 k1 k2 a b c d ^ 2 - mag2Of k0 k1 a b c|) (cart4 k0 k1 k2 a b c d)) := by
+  have hr4 : lorentz_unit.ret k0 k1 k2 = Ret.vec [RP.az k0, RP.lon k1, RP.tmp k2] := by
+    cases k0 <;> cases k1 <;> cases k2 <;> rfl
+  have hn : 0 < sqrt |tOf k0 k1 k2 a b c d ^ 2 - mag2Of k0 k1 a b c| := sqrt_pos.mpr (abs_pos.mpr hm)
+  have hnorm : unitNorm k0 k1 k2 a b c d = sqrt |tOf k0 k1 k2 a b c d ^ 2 - mag2Of k0 k1 a b c| := by
+    cases k2
+    · simp only [unitNorm, lorentz_tau2_t_eq k0 k1 a b c d hs, tOf_t]
+    · have h0 : (0 : ℝ) ≤ d := hd
+      simp only [unitNorm, tOf_tau_eq]
+      rw [sq_sqrt (by positivity)]
+      have : d ^ 2 + (xOf k0 a b ^ 2 + yOf k0 a b ^ 2 + zOf k0 k1 a b c ^ 2) - mag2Of k0 k1 a b c = d ^ 2 := by
+        unfold mag2Of; ring
+      rw [this, abs_of_nonneg (sq_nonneg d), sqrt_sq h0, abs_of_nonneg h0]
+  have hlast : unitLast k0 k1 k2 a b c d = d * (1 / unitNorm k0 k1 k2 a b c d) := by
+    cases k2
+    · simp only [unitLast]; ring
+    · have h0 : (0 : ℝ) ≤ d := hd
+      have hd0 : d ≠ 0 := by
+        intro e; rw [← hnorm, e] at hn
+        simp only [unitNorm, abs_zero] at hn
+        exact lt_irrefl _ hn
+      simp only [unitLast, unitNorm, abs_of_nonneg h0, P.copysign, if_pos h0, abs_one]
+      field_simp
+  rw [hr4, interp4_same, lorentz_unit_eval_eq, hlast]
+  apply congrArg some
+  rw [← hnorm] at hn ⊢
+  generalize unitNorm k0 k1 k2 a b c d = n at hn ⊢
+  exact cart4_of_scaled k0 k1 k2 (1 / n) a b c d _ _ _ (cart3_div k0 k1 a b c n hn) (fun _ => by positivity)
+
+example : tOf .xy .z .t 0 0 0 1 ^ 2 - mag2Of .xy .z 0 0 0 ≠ 0 := by norm_num [tOf, mag2Of, xOf, yOf, zOf]
 
 end VR
